@@ -12,6 +12,7 @@ SrvFrame(cc, kind) ==
     [] kind = "abortx" -> <<128, 1, 2, 3, 0, 0, 2, 6>>
     [] kind = "toggle" -> Flip(ServerOk(cc))
     [] kind = "cmd" -> <<224, 0, 0, 0, 0, 0, 0, 0>>
+    [] kind = "junk" -> <<4, 1, 2, 3, 4, 5, 6, 7>>
     [] kind = "size" -> <<65>> \o Mx \o LE(cc.size + 1, 3) \o <<0>>
     [] kind = "mux" -> <<ServerOk(cc)[1], 9, 9, 9>> \o SubSeq(ServerOk(cc), 5, 8)
 Apply(cc, l) ==
